@@ -117,7 +117,7 @@ func min(a, b int) int {
 	return b
 }
 
-var t4Ops = map[string]bool{"set-length": true, "del-origin-line": true, "dup-origin-line": true, "cut-origin-line": true}
+var t4Ops = map[string]bool{"set-length": true, "del-origin-line": true, "dup-origin-line": true, "cut-origin-line": true, "surplus-after-blank": true}
 
 func (sc *c07Scenario) build() *material {
 	m := &material{genbank: true, bounds: []int{0}}
@@ -295,6 +295,23 @@ func applyEdit(lines []string, e textEdit) []string {
 			out[k] = out[k][:12+c+1] + []string{"", " ", "   "}[e.N%3] + "\n"
 		}
 		return out
+	case "surplus-after-blank":
+		// LOCUS declares what the first k lines of the block hold; the rest
+		// follows behind a line that is empty or holds only a tab or blanks
+		a, b := originRange(lines)
+		if a < 0 || b-a < 2 {
+			return lines
+		}
+		k := 1 + e.Line%(b-a-1)
+		keep := countResidues(lines[a : a+k])
+		out := append([]string(nil), lines[:a+k]...)
+		out = append(out, []string{"\n", "\t\n", "   \n"}[e.N%3])
+		out = append(out, lines[a+k:]...)
+		f := strings.Fields(out[0])
+		if len(f) > 2 {
+			out[0] = strings.Replace(out[0], " "+f[2]+" bp", " "+fmt.Sprint(keep)+" bp", 1)
+		}
+		return out
 	case "set-length":
 		out := append([]string(nil), lines...)
 		f := strings.Fields(out[0])
@@ -383,7 +400,7 @@ func genEdit(r *core.RNG, nlines, nbytes int) textEdit {
 	case "inflate-number":
 		e.Text = []string{"0", "00", "000", "99999999999999999999"}[r.Intn(4)]
 	case "replace-line":
-		e.Text = []string{"DBLINK      X:", "DBLINK      :", "ORIGIN", "FEATURES", "//", "CONTIG      join(X:1..2", "REFERENCE   1000", "LOCUS", "            ", "     gene            ", "                     /", "                     /note=\"", "        1 acgt"}[r.Intn(13)]
+		e.Text = []string{"DBLINK      X:", "DBLINK      :", "ORIGIN", "FEATURES", "//", "CONTIG      join(X:1..2", "REFERENCE   1000", "LOCUS", "            ", "     gene            ", "                     /", "                     /note=\"", "        1 acgt", ">fasta header", ">x\nACGT"}[r.Intn(15)]
 	}
 	return e
 }
@@ -391,6 +408,9 @@ func genEdit(r *core.RNG, nlines, nbytes int) textEdit {
 func genT4Edit(r *core.RNG, length int) textEdit {
 	if r.Chance(1, 6) {
 		return textEdit{Op: "empty-dblink", Line: r.Intn(8), N: r.Intn(3)}
+	}
+	if r.Chance(1, 7) {
+		return textEdit{Op: "surplus-after-blank", Line: r.Intn(1000), N: r.Intn(3)}
 	}
 	switch r.Intn(5) {
 	case 0:
@@ -659,6 +679,19 @@ func (x *c07Run) runStream(sc *c07Scenario, m *material) {
 			}
 			declared = append(declared, d)
 		}
+		// a stream that starts as GenBank is GenBank to its end: what comes
+		// back is GenBank records, and one per LOCUS line
+		if bytes.HasPrefix(bytes.TrimLeft(m.data, " \t\r\n"), []byte("LOCUS ")) {
+			for k, seq := range r.Seqs {
+				if _, ok := fieldsOf(seq); !ok {
+					x.violate(sc, "format-switch", "genbank->other", fmt.Sprintf("the stream starts with a LOCUS line; record %d of the %d returned is not a GenBank record (%T) and no error was reported", k, len(r.Seqs), seq.Info()))
+					break
+				}
+			}
+			if len(declared) != len(r.Seqs) {
+				x.violate(sc, "record-count-mismatch", fmt.Sprintf("locus-lines%srecords", map[bool]string{true: ">", false: "<"}[len(declared) > len(r.Seqs)]), fmt.Sprintf("the stream holds %d LOCUS lines; it was accepted without an error as %d record(s)", len(declared), len(r.Seqs)))
+			}
+		}
 		if len(declared) == len(r.Seqs) {
 			res.Probes["declared_length_checked_on_accepted_records"]++
 			for k, seq := range r.Seqs {
@@ -765,7 +798,13 @@ func callString(fn, in string) (pnc string, accepted bool) {
 	var err error
 	switch fn {
 	case "AsLocation":
-		_, err = gts.AsLocation(in)
+		var loc gts.Location
+		loc, err = gts.AsLocation(in)
+		if err == nil && loc != nil {
+			if why := locationAcceptedWrongly(in, loc.String()); why != "" {
+				return "ACCEPTED-MALFORMED: " + why, true
+			}
+		}
 	case "AsLocator":
 		var loc gts.Locator
 		if loc, err = gts.AsLocator(in); err == nil && loc != nil {
@@ -792,6 +831,73 @@ func callString(fn, in string) (pnc string, accepted bool) {
 		_, err = seqio.INSDCTableParser("").Parse(pars.FromString(in))
 	}
 	return "", err == nil
+}
+
+// locationAcceptedWrongly names a reason why a string that AsLocation
+// accepted cannot be a location, or returns "". These are necessary
+// conditions only: the parentheses balance, the only words are the three
+// operators, and the largest number written in the string is still in what
+// the value prints as (merging drops inner bounds, never the outermost).
+func locationAcceptedWrongly(in, out string) string {
+	depth := 0
+	for _, c := range in {
+		switch c {
+		case '(':
+			depth++
+		case ')':
+			depth--
+			if depth < 0 {
+				return "unbalanced parentheses"
+			}
+		}
+	}
+	if depth != 0 {
+		return "unbalanced parentheses"
+	}
+	word, num := "", ""
+	maxIn := -1
+	flush := func() string {
+		if word != "" && word != "join" && word != "order" && word != "complement" {
+			return "the word " + strconv.Quote(word) + " is no location operator"
+		}
+		if num != "" && len(num) < 18 {
+			if v, err := strconv.Atoi(num); err == nil && v > maxIn {
+				maxIn = v
+			}
+		}
+		word, num = "", ""
+		return ""
+	}
+	for i := 0; i < len(in); i++ {
+		c := in[i]
+		switch {
+		case c >= 'a' && c <= 'z' || c >= 'A' && c <= 'Z' || c == '_':
+			if num != "" {
+				if why := flush(); why != "" {
+					return why
+				}
+			}
+			word += string(c)
+		case c >= '0' && c <= '9':
+			if word != "" {
+				if why := flush(); why != "" {
+					return why
+				}
+			}
+			num += string(c)
+		default:
+			if why := flush(); why != "" {
+				return why
+			}
+		}
+	}
+	if why := flush(); why != "" {
+		return why
+	}
+	if maxIn >= 0 && !strings.Contains(out, strconv.Itoa(maxIn)) {
+		return "the largest number in it, " + strconv.Itoa(maxIn) + ", is not in the value it was read as (" + out + ")"
+	}
+	return ""
 }
 
 func mutateString(r *core.RNG, s string) string {
@@ -1397,7 +1503,10 @@ func (C07) RunSeed(tier string, seed uint64, idx int) *core.Result {
 			if ok1 {
 				oc = "accepted"
 			}
-			if pnc != "" {
+			if strings.HasPrefix(pnc, "ACCEPTED-MALFORMED: ") {
+				oc = "accepted-malformed"
+				x.violate(sc, "malformed-accepted", fn, fmt.Sprintf("%s(%q) returned a value and no error although %s", fn, in, strings.TrimPrefix(pnc, "ACCEPTED-MALFORMED: ")))
+			} else if pnc != "" {
 				oc = "panic"
 				x.violate(sc, "panic", panicSite(pnc), fmt.Sprintf("%s(%q) panicked: %s", fn, in, firstLine(pnc)))
 			} else if pnc2, ok2 := callString(fn, in); pnc2 == "" && ok1 != ok2 {
